@@ -42,6 +42,8 @@ type Op struct {
 	Up      int      `json:"up,omitempty"`
 	Ok      bool     `json:"ok,omitempty"`
 	Delays  []int    `json:"delays,omitempty"` // storm: one request per entry, sent that many microseconds after the op
+	Token   string   `json:"token,omitempty"`  // start / storm: client bearer token -> TokenReview webhook (unless cached)
+	Imp     string   `json:"imp,omitempty"`    // start / storm: impersonated user -> SubjectAccessReview webhook (unless cached)
 }
 
 type Case struct {
@@ -111,6 +113,15 @@ type runner struct {
 	prevDead  string
 	cutSeen   map[int]bool
 	stormRids []int
+	// traffic judge: which (cluster credential, stub upstream) pairs had no current endpoint object after the previous
+	// op, and how many calls of each stub have been examined
+	prevRemoved map[pairKey]bool
+	seenCalls   []int
+}
+
+type pairKey struct {
+	tok string
+	up  int
 }
 
 var universeKeys = []string{"a", "b", "c", "x", "y", "z.example", "nope"}
@@ -236,7 +247,7 @@ func (r *runner) exec(i int, op Op) {
 		rc := w.start(op)
 		r.mop(map[string]interface{}{"op": "start", "r": op.Rid, "host": rig.Hex(op.Host)})
 		waitFor(bound, func() bool { s := rc.snapshot(); return s.completed || s.reachedPrepick })
-		if rc.hold == "prepick" {
+		if rc.hold == "prepick" || rc.hold == "preauth" {
 			return
 		}
 		r.awaitPick(rc)
@@ -260,7 +271,7 @@ func (r *runner) exec(i int, op Op) {
 		}
 		if !rc.snapshot().released {
 			rc.release()
-			if rc.hold == "prepick" {
+			if rc.hold == "prepick" || rc.hold == "preauth" {
 				r.awaitPick(rc)
 			}
 			r.awaitStreaming(rc)
@@ -288,7 +299,14 @@ func (r *runner) exec(i int, op Op) {
 				continue
 			}
 			r.stormRids = append(r.stormRids, rid)
-			w.startAfter(Op{Rid: rid, Host: op.Host, Hold: "stream", Watch: j%2 == 0}, time.Duration(d)*time.Microsecond, true)
+			so := Op{Rid: rid, Host: op.Host, Hold: "stream", Watch: j%2 == 0}
+			if op.Token != "" {
+				so.Token = fmt.Sprintf("%s-%d", op.Token, j%3) // some share a token (cache / singleflight), some do not
+			}
+			if op.Imp != "" && j%2 == 1 {
+				so.Imp = fmt.Sprintf("%s-%d", op.Imp, j)
+			}
+			w.startAfter(so, time.Duration(d)*time.Microsecond, true)
 		}
 	case "health":
 		if op.Up < 0 || op.Up >= nStubs {
@@ -683,6 +701,56 @@ func (r *runner) check(i int, op Op, ms modelSnap, opEnd time.Time) {
 		}
 	}
 
+	// 4c. every kind of traffic, as the stub upstreams saw it: a (cluster credential, upstream) pair that had no current
+	// endpoint object before this op started and still has none now must not have received, during this op, a
+	// TokenReview / SubjectAccessReview webhook call (ClientFor -> PickOne), nor a proxied request that entered the
+	// gateway after the removal — whatever was picked, latched or cached before. (Probes: 2.)
+	removed := map[pairKey]bool{}
+	known := map[pairKey]bool{}
+	for _, me := range ms.Eps {
+		if eo := w.eps[me.Id]; eo != nil {
+			k := pairKey{eo.owner.token, eo.up}
+			known[k] = true
+			if me.InMap && !clDone[me.Owner] {
+				removed[k] = false
+			} else if _, seen := removed[k]; !seen {
+				removed[k] = true
+			}
+		}
+	}
+	if r.seenCalls == nil {
+		r.seenCalls = make([]int, len(w.stubs))
+	}
+	for si, st := range w.stubs {
+		cs := st.callsSince(r.seenCalls[si])
+		r.seenCalls[si] += len(cs)
+		for _, c := range cs {
+			k := pairKey{c.token, si}
+			r.st.ops["traffic:"+c.kind]++
+			if !known[k] {
+				r.fail("diff", "c15.unattributed-traffic", what(fmt.Sprintf("stub u%d received a %s call with the credential %q of no cluster object that has this upstream", si, c.kind, c.token)), nil, nil)
+				continue
+			}
+			if int(c.op) != i || !removed[k] || !r.prevRemoved[k] {
+				continue
+			}
+			switch c.kind {
+			case "tokenreview", "sar":
+				r.fail("judge", "c15.webhook-to-removed", what(fmt.Sprintf("stub u%d received a %s webhook call with the credential %q although that cluster object has had no endpoint for this upstream since before this op (endpoint removed / cluster deleted): authentication / authorization traffic still goes to a removed endpoint", si, c.kind, c.token)), c.kind, nil)
+			case "proxy":
+				if rc := w.req(c.rid); rc != nil && int(rc.startOp) == i {
+					r.fail("judge", "c15.routed-to-removed", what(fmt.Sprintf("stub u%d received proxied request %d (sent during this op) with the credential %q although that cluster object has had no endpoint for this upstream since before this op", si, c.rid, c.token)), nil, nil)
+				}
+			}
+		}
+	}
+	r.prevRemoved = map[pairKey]bool{}
+	for k, v := range removed {
+		if v {
+			r.prevRemoved[k] = true
+		}
+	}
+
 	// 5. the Lean judge on what was observed
 	obsC := []map[string]interface{}{}
 	for _, mc := range ms.Clusters {
@@ -886,6 +954,7 @@ func runCase(c *rig.Ctx, cs Case, st *stats) []rig.Failure {
 	}
 	var last modelSnap
 	for i, op := range cs.Ops {
+		atomic.StoreInt32(&r.w.curOp, int32(i))
 		r.exec(i, op)
 		opEnd := time.Now()
 		if stop() {
